@@ -308,6 +308,7 @@ def leaves(v, acc=None):
 # pack (injective because it has left inverses unpack_i): a store/select on a key is then one array operation instead of a
 # nest of one per component.  Same meaning (keys are equal iff all components are), much smaller case analysis.
 PACK = {"enabled": False, "funs": {}, "axioms": [], "sink": None}
+NESTED_ORDER = {"enabled": False}  # sidecar opt-in NESTED_DICT_ORDER (see fresh: dict shapes inside containers)
 
 
 def _pack_decl(sorts):
@@ -444,7 +445,11 @@ def fresh(shape, name, idx=()):
         return VSet(shape[1], _mk_arr(name + ".mem", idx + ks, z3.BoolSort()))
     if kind == "dict":
         ks = tuple(key_sorts(shape[1]))
-        return VDict(shape[1], shape[2], _mk_arr(name + ".dom", idx + ks, z3.BoolSort()), fresh(shape[2], name + ".val", idx + ks))
+        # a dict nested in another container (idx non-empty), opt-in of the sidecar (NESTED_DICT_ORDER): the unknown dict also
+        # carries an (unknown, lifted) insertion-ordered key list, so that a dict stored as a value of another dict can be
+        # iterated / measured after it has been read back.  Without the opt-in nothing changes (no order: iteration refused).
+        order = fresh(("list", shape[1]), name + ".order", idx) if (NESTED_ORDER["enabled"] and idx) else None
+        return VDict(shape[1], shape[2], _mk_arr(name + ".dom", idx + ks, z3.BoolSort()), fresh(shape[2], name + ".val", idx + ks), order)
     if kind == "urec":
         return fresh(urec_as_tuple(shape), name, idx)
     if kind == "rec":
